@@ -22,7 +22,7 @@ ASSUMPTIONS = [
     'noise tolerance for "farthest": d >= dmax - (1e-9(1+dmax) + eps)',
 ]
 BOUNDS = {
-    'quick': {'A': 'n<=4 complete', 'B,C': 'n<=4', 'A1': 'n=5', 'G12Y013 re-embedded (y*2^-34; x*2^-20,y*2^-27; y*2^34)': 'n=5', 'thresholds/curve': '2 fixed + all attained segment costs'},
+    'quick': {'A': 'n<=4 complete', 'B,C': 'n<=4', 'A1': 'n=5', 'G12Y013 re-embedded (y*2^-34; x*2^-20,y*2^-27; y*2^34)': 'n=5', 'thresholds/curve': '2 fixed + all attained segment costs', 'trace windows': 'web0_reduced.csv w=12, usr0.csv[::64] w=16'},
     'thorough': {'A': 'n<=5 complete', 'B,C': 'n<=5', 'A12': 'n=6', 'thresholds/curve': '2 fixed + all attained segment costs'},
 }
 TECHNIQUE = 'bounded-exhaustive exploration of rdp.rdp; each output decided by a reachability search in the reference split machine (all tie choices)'
@@ -41,6 +41,7 @@ def units(tier, seed):
         plan = [('A', 3, 2), ('A', 4, 48), ('B', 3, 1), ('B', 4, 8), ('C', 3, 1), ('C', 4, 8), ('A1', 5, 16)]
     else:
         plan = [('A', 3, 2), ('A', 4, 16), ('A', 5, 320), ('B', 4, 4), ('B', 5, 32), ('C', 4, 4), ('C', 5, 32), ('A12', 6, 256)]
+    plan += [('Tweb0r', 12, 8), ('Tusr0s64', 16, 16)] if tier == 'quick' else [('Tweb0r', 12, 8), ('Tweb0r', 24, 8), ('Tusr0s64', 16, 16), ('Tusr0s64', 32, 16), ('Tusr0s8', 24, 64)]
     b = curves.bonus(seed)
     plan.append((b.name, 4 if tier == 'thorough' else 3, 48 if tier == 'thorough' else 2))
     for p in curves.tiny_family(curves.G12Y013 if tier == 'quick' else curves.A12):
